@@ -17,16 +17,18 @@
      PriceLevelStatistics (map only, unknown key = error, duplicate = error,
      defaults for the missing fields the visitor defaults), OrderId / Uuid as
      strings.
-   * ID TEXT: printers are the canonical ones (uuid: 36 chars lowercase
-     hyphenated; ulid: 26 Crockford chars, upper case).  [parse_oid] accepts
-     exactly: lowercase-hex 8-4-4-4-12 text -> Uuid, otherwise 26 characters of
-     the upper-case Crockford alphabet -> Ulid of the value mod 2^128 (the ulid
-     crate drops the two excess bits silently).  COVERED INPUTS: every text
-     produced by [print_oid] (round trip proved, Proofs/JsonProofs.v) and every
-     text whose length is not one of 26/32/36/38/45 (rejected by both).  NOT
-     covered (the implementation accepts, this model rejects): upper/mixed-case
-     hex, the simple / braced / urn uuid forms, lower-case ulid characters.
-     The full text formats are modelled elsewhere (Ids.v, another engineer).
+   * ID TEXT: the FULL text model of Model/Ids.v / Model/Text.v (the vendored
+     uuid and ulid crates), shared with the text codecs (C16, C18).  Printers
+     are the canonical ones ([Ids.print_uuid]: 36 chars lowercase hyphenated;
+     [Ids.print_ulid]: 26 Crockford chars, upper case).  [parse_uuid] is
+     [Ids.parse_uuid] = Uuid::from_str: 32 hex digits / 8-4-4-4-12 hyphenated /
+     braced / "urn:uuid:" + hyphenated, hex digits in either case.  [parse_oid]
+     is [Text.parse_oid] = OrderId::from_str: Uuid first, otherwise 26
+     characters of Crockford's alphabet in either case -> Ulid of the value
+     mod 2^128 (the ulid crate drops the two excess bits silently).  The text
+     parser's three-valued outcome is mapped to [option] ([POk v] -> [Some v],
+     [PErr] / [PPanic] -> [None]); the [PPanic] branch is unreachable
+     ([parse_oid_no_panic] in Proofs/JsonProofs.v, from C18).
    * [print_json]: serde_json::to_string on these values — compact, no spaces,
      decimal integers, strings between quotes WITHOUT escaping.  RESTRICTION:
      correct for "plain" strings only (every byte >= 0x20 and different from
@@ -46,10 +48,15 @@ From Coq Require String.
 Import String.StringSyntax.
 Delimit Scope string_scope with string.
 From PL Require Export Model.Level.
+(* the id text model; NOT imported (Text.v has its own str_eqb / field / print_N ...):
+   used through qualified names [Ids.parse_uuid], [Text.parse_oid] ... *)
+From PL Require Model.Utf8 Model.Ids Model.Text.
 Local Open Scope N_scope.
 Local Open Scope char_scope.
 
 Definition str := list ascii.
+(* the same type as the text model's strings: no conversion needed *)
+Example str_is_text_str : str = Utf8.str := eq_refl.
 Definition lit (x : String.string) : str := String.list_ascii_of_string x.
 Arguments lit _%string.
 
@@ -117,100 +124,36 @@ Definition of_json_vec {A} (dec : json -> option A) (j : json) : option (list A)
   match j with JArr l => of_json_list dec l | _ => None end.
 
 (* ------------------------------------------------------------------ *)
-(* id text: fixed-width positional printing over an alphabet *)
+(* id text *)
 
+(* lowercase hex digits by position (Snapshot.v: the checksum text) *)
 Fixpoint index_of (c : ascii) (al : str) : option N :=
   match al with
   | [] => None
   | x :: al' => if Ascii.eqb c x then Some 0 else option_map N.succ (index_of c al')
   end.
 Definition digit_of (al : str) (d : N) : ascii := nth (N.to_nat d) al "0"%char.
-Fixpoint fixed (al : str) (base : N) (k : nat) (n : N) : str :=
-  match k with
-  | O => []
-  | S k' => fixed al base k' (n / base) ++ [digit_of al (n mod base)]
-  end.
-Definition unfixed (al : str) (base : N) (s : str) : option N :=
-  fold_left (fun acc c =>
-               match acc, index_of c al with
-               | Some a, Some v => Some (a * base + v)
-               | _, _ => None
-               end) s (Some 0).
-
 Definition hex_al : str := lit "0123456789abcdef".
-Definition b32_al : str := lit "0123456789ABCDEFGHJKMNPQRSTVWXYZ".
 Definition dash : ascii := "-"%char.
 
-Fixpoint take (n : nat) (s : str) : option (str * str) :=
-  match n with
-  | O => Some ([], s)
-  | S n' =>
-      match s with
-      | [] => None
-      | c :: s' => match take n' s' with Some (a, r) => Some (c :: a, r) | None => None end
-      end
-  end.
-Definition expect (c : ascii) (s : str) : option str :=
-  match s with
-  | x :: r => if Ascii.eqb x c then Some r else None
-  | [] => None
-  end.
+(* Result<_, _> / panic of the text model -> what serde sees: a value or an error.
+   A panic inside a Deserialize impl would not be an error; [PPanic] is proved
+   unreachable for the id parsers (Proofs/JsonProofs.v, [parse_oid_no_panic]). *)
+Definition opt_of_outcome {A} (x : Text.outcome A) : option A :=
+  match x with Text.POk v => Some v | Text.PErr => None | Text.PPanic => None end.
 
-Definition print_uuid (n : N) : str :=
-  let h := fixed hex_al 16 32 n in
-  firstn 8 h ++ dash :: firstn 4 (skipn 8 h) ++ dash :: firstn 4 (skipn 12 h)
-    ++ dash :: firstn 4 (skipn 16 h) ++ dash :: skipn 20 h.
+(* uuid::Uuid with the serde feature, human-readable format: Serialize writes the lower-case
+   hyphenated text (= Display), Deserialize asks for a string (deserialize_str; serde_json
+   then calls visit_str only, never visit_seq / visit_bytes) and reads it with
+   Uuid::from_str = [Ids.parse_uuid]: simple / hyphenated / braced / urn, either case. *)
+Definition print_uuid : N -> str := Ids.print_uuid.
+Definition parse_uuid : str -> option N := Ids.parse_uuid.
+Definition print_ulid : N -> str := Ids.print_ulid.
+Definition parse_ulid : str -> option N := Ids.parse_ulid.
 
-Definition parse_uuid (s : str) : option N :=
-  if Nat.eqb (length s) 36 then
-    match take 8 s with
-    | Some (a, r) =>
-      match expect dash r with
-      | Some r =>
-        match take 4 r with
-        | Some (b, r) =>
-          match expect dash r with
-          | Some r =>
-            match take 4 r with
-            | Some (c, r) =>
-              match expect dash r with
-              | Some r =>
-                match take 4 r with
-                | Some (d, r) =>
-                  match expect dash r with
-                  | Some e => unfixed hex_al 16 (a ++ b ++ c ++ d ++ e)
-                  | None => None
-                  end
-                | None => None
-                end
-              | None => None
-              end
-            | None => None
-            end
-          | None => None
-          end
-        | None => None
-        end
-      | None => None
-      end
-    | None => None
-    end
-  else None.
-
-Definition print_ulid (n : N) : str := fixed b32_al 32 26 n.
-Definition parse_ulid (s : str) : option N :=
-  if Nat.eqb (length s) 26 then
-    match unfixed b32_al 32 s with Some v => Some (v mod W128) | None => None end
-  else None.
-
-Definition print_oid (o : oid) : str :=
-  match o with Uuid n => print_uuid n | Ulid n => print_ulid n end.
-(* OrderId::from_str: Uuid first, then Ulid *)
-Definition parse_oid (s : str) : option oid :=
-  match parse_uuid s with
-  | Some n => Some (Uuid n)
-  | None => match parse_ulid s with Some n => Some (Ulid n) | None => None end
-  end.
+(* OrderId: Serialize = to_string, Deserialize = OrderId::from_str (Uuid first, then Ulid) *)
+Definition print_oid : oid -> str := Text.print_oid.
+Definition parse_oid (s : str) : option oid := opt_of_outcome (Text.parse_oid s).
 
 Definition to_json_oid (o : oid) : json := JStr (print_oid o).
 Definition of_json_oid (j : json) : option oid :=
